@@ -4,5 +4,5 @@ from checks import c03
 
 def run(rep, tier, replay):
     return c03.run_family(rep, tier, replay, "C01", mix="bps", probes=["text"], by_kinds=True,
-                          quick=dict(maxcmd=14, maxbps=3, ncands=5, nhist=8, maxbk=7, also_mixed=4, also_adjacent=3, signals=True),
-                          thorough=dict(maxcmd=20, maxbps=4, ncands=8, nhist=30, maxbk=10, also_mixed=12, also_adjacent=5, signals=True))
+                          quick=dict(maxcmd=14, maxbps=3, ncands=5, nhist=8, maxbk=7, also_mixed=4, also_adjacent=3, signals=True, nopie=True),
+                          thorough=dict(maxcmd=20, maxbps=4, ncands=8, nhist=30, maxbk=10, also_mixed=12, also_adjacent=5, signals=True, nopie=True))
